@@ -267,6 +267,27 @@ def variant_mirror(d: Drawing, out: Path) -> Path:
     return write_tree(t, out)
 
 
+BEGIN_END = {"WedgeBegin": "WedgeEnd", "WedgeEnd": "WedgeBegin", "WedgedHashBegin": "WedgedHashEnd",
+             "WedgedHashEnd": "WedgedHashBegin"}
+
+
+def variant_restereo(d: Drawing, out: Path, rng) -> Path:
+    """a NEW drawing of a stereoisomer / differently drawn stereo marks: every stereo mark is, at random, kept,
+    replaced by its opposite (wedge <-> hash), or moved to the other end of the bond"""
+    t = copy.deepcopy(d.tree)
+    for b in t.getroot().iter("b"):
+        disp = b.get("Display")
+        if disp in MIRROR:
+            r = rng.below(4)
+            if r == 1:
+                b.set("Display", MIRROR[disp])
+            elif r == 2 and disp in BEGIN_END:
+                b.set("Display", BEGIN_END[disp])
+            elif r == 3 and disp in BEGIN_END:
+                b.set("Display", MIRROR[BEGIN_END[disp]])
+    return write_tree(t, out)
+
+
 def variant_permute(d: Drawing, out: Path, rng) -> Path:
     """shuffle the children of every page and of every group holding several fragments/labels"""
     t = copy.deepcopy(d.tree)
